@@ -221,6 +221,8 @@ def run(chk):
     with pipeline.TmpCache() as root:
         ref = sched.Reference(root)
         chk.notes["reference_build_s"] = round(ref.build_s, 2)
+        # -- the real C compiler fails (first, so that the reported failing input is the unpatched one)
+        real_compiler_failure(chk, root)
         idx = 0
         timeouts = [2, 3] if thorough else [2]
         with lean.Driver("driver_jit") as d:
@@ -287,7 +289,5 @@ def run(chk):
                 raise RuntimeError("sched.Patches left jit.py patched")
         if sched.leftover_threads():
             raise RuntimeError(f"leftover worker threads {sched.leftover_threads()}")
-        # -- the real C compiler fails
-        real_compiler_failure(chk, root)
     if thorough:
         chk.leanchecker(["FfcxProofs.C15"])
